@@ -70,6 +70,12 @@ func (ex *Exec) callValue(fr *Frame, st *State, cc *ssa.CallCommon, fv Val, args
 				ts = append(ts, msig.Params().At(i).Type())
 			}
 			ex.checkAsserts(fr, st, key, ns, ts, append([]Val{recv}, args...), pos)
+			if m := ex.vfsMethodFor(cc); m != nil {
+				mns, _ := fnParamInfo(m)
+				ex.freshCheck(fr, st, funcKey(m), mns, pos)
+			} else {
+				ex.freshCheck(fr, st, key, ns, pos)
+			}
 		}
 		if iv, ok := recv.(*IfaceV); ok && iv.Dyn != nil {
 			// dynamic type known on this path: static dispatch
@@ -82,6 +88,16 @@ func (ex *Exec) callValue(fr *Frame, st *State, cc *ssa.CallCommon, fv Val, args
 		}
 		if r, ok := ex.intrinsic(fr, st, key, append([]Val{recv}, args...), sig, pos); ok {
 			return r
+		}
+		// DESIGN §2.2 rule 1b: values of the filesystem interfaces (FS, ICloseableFS) are *VFS
+		// (the only implementation in /repo apart from generated mocks): use that method's contract
+		if m := ex.vfsMethodFor(cc); m != nil {
+			if c := ex.activeContract(funcKey(m)); c != nil && !c.Flags["inline"] {
+				ex.usedExtern["dispatch: values of "+shortType(cc.Value.Type())+" are "+shortKey(funcKey(m))[:strings.LastIndex(shortKey(funcKey(m)), ")")+1]] = true
+				ns, ts := fnParamInfo(m)
+				ex.checkAsserts(fr, st, funcKey(m), ns, ts, append([]Val{recv}, args...), pos)
+				return ex.applyContractFn(fr, st, c, m, nil, append([]Val{recv}, args...), pos)
+			}
 		}
 		return ex.havocCall(fr, st, key, append([]Val{recv}, args...), sig, pos)
 	}
@@ -123,8 +139,7 @@ func (ex *Exec) checkAsserts(fr *Frame, st *State, key string, names []string, p
 			continue
 		}
 		if strings.HasPrefix(cl.Names[0], "flag:") {
-			cc := ex.lib.Contracts[key]
-			if cc == nil || !cc.Flags[strings.TrimPrefix(cl.Names[0], "flag:")] {
+			if !ex.calleeHasFlag(key, strings.TrimPrefix(cl.Names[0], "flag:"), names) {
 				continue
 			}
 		} else if !strings.Contains(key, cl.Names[0]) {
@@ -168,6 +183,31 @@ func (ex *Exec) checkAsserts(fr *Frame, st *State, key string, names []string, p
 	}
 }
 
+// calleeHasFlag: flags written in contracts, plus the synthesized ones for /repo functions:
+//   repo-mutating      may reach a mutating backend operation and takes no ctx parameter
+//   repo-mutating-ctx  may reach a mutating backend operation and takes a ctx parameter
+//   repo-backend       may reach a backend operation and takes no ctx parameter
+func (ex *Exec) calleeHasFlag(key, flag string, paramNames []string) bool {
+	if c := ex.lib.Contracts[key]; c != nil && c.Flags[flag] {
+		return true
+	}
+	hasCtx := false
+	for _, n := range paramNames {
+		if n == "ctx" {
+			hasCtx = true
+		}
+	}
+	switch flag {
+	case "repo-mutating":
+		return ex.reachMutating[key] && !hasCtx
+	case "repo-mutating-ctx":
+		return ex.reachMutating[key] && hasCtx
+	case "repo-backend":
+		return ex.reachBackend[key] && !hasCtx
+	}
+	return false
+}
+
 func fnParamInfo(fn *ssa.Function) ([]string, []types.Type) {
 	var names []string
 	var ts []types.Type
@@ -178,12 +218,60 @@ func fnParamInfo(fn *ssa.Function) ([]string, []types.Type) {
 	return names, ts
 }
 
+// blockInLoop: the block belongs to a natural loop of its function.
+func (ex *Exec) blockInLoop(fn *ssa.Function, b *ssa.BasicBlock) bool {
+	for _, li := range ex.info(fn).Loops {
+		if li.Blocks[b] {
+			return true
+		}
+	}
+	return false
+}
+
+// freshCheck implements the per-iteration clause of C09 ("once the context has ended only a
+// bounded number of further backend operations, however much work remains"): inside a loop,
+// every backend operation must be preceded, in the same iteration, by a context test.
+func (ex *Exec) freshCheck(fr *Frame, st *State, key string, names []string, pos token.Pos) {
+	if ex.prop != "C09" || ex.topFrame == nil || !hasCtxParam(ex.topFrame.fn) {
+		return
+	}
+	c := ex.lib.Contracts[key]
+	hasCtx := false
+	for _, n := range names {
+		if n == "ctx" {
+			hasCtx = true
+		}
+	}
+	if (c != nil && c.Flags["ctx-check"]) || (hasCtx && ex.reachBackend[key]) {
+		// a context test, or a context-aware operation (which tests its context first: its own C09 obligations)
+		st.fresh = true
+		return
+	}
+	isOp := (c != nil && c.Flags["backend-op"]) || (ex.reachBackend[key] && !hasCtx)
+	if !isOp {
+		return
+	}
+	if !(fr.inLoopCtx || (fr.curBlock != nil && ex.blockInLoop(fr.fn, fr.curBlock))) {
+		return
+	}
+	site := lastSeg(key)
+	ord := ex.nextCallOrd(fr, "fresh:"+site, pos)
+	goal := TFalse
+	if st.fresh {
+		goal = TTrue
+	}
+	ex.addObl(st, "assert", ex.oblName("assert", fmt.Sprintf("#ctx-per-iteration@%s#%d", site, ord)), goal, pos,
+		"inside a loop a backend operation is preceded, in the same iteration, by a context test")
+	st.fresh = true // report each gap once per path
+}
+
 func (ex *Exec) callStaticBind(fr *Frame, st *State, fn *ssa.Function, args []Val, bind []Val, pos token.Pos, sig *types.Signature) []Outcome {
 	key := funcKey(fn)
 	fsig := fn.Signature
 	{
 		ns, ts := fnParamInfo(fn)
 		ex.checkAsserts(fr, st, key, ns, ts, args, pos)
+		ex.freshCheck(fr, st, key, ns, pos)
 	}
 	// synthetic wrappers: bound method closures and thunks
 	if fn.Synthetic != "" && strings.HasPrefix(fn.Synthetic, "bound method wrapper") && len(bind) == 1 {
@@ -266,6 +354,7 @@ func (ex *Exec) callStaticBind(fr *Frame, st *State, fn *ssa.Function, args []Va
 		st.Tracef("%s: inline %s", ex.pos(pos), shortKey(key))
 		nfr := &Frame{fn: fn, env: map[ssa.Value]Val{}, loopCut: map[*ssa.BasicBlock]bool{}, args: args, depth: fr.depth + 1,
 			stack: append(append([]*ssa.Function(nil), fr.stack...), fn)}
+		nfr.inLoopCtx = fr.inLoopCtx || (fr.curBlock != nil && ex.blockInLoop(fr.fn, fr.curBlock))
 		for i, p := range fn.Params {
 			if i < len(args) {
 				nfr.env[p] = args[i]
@@ -475,6 +564,11 @@ func (ex *Exec) applyContractNamed(fr *Frame, st *State, c *Contract, names []st
 					st.ghost[n] = ex.declare("g_"+n, g.Sort)
 				}
 			}
+		}
+	}
+	if !claimsGhostFrame(c, ex.prop) && !c.Extern {
+		for _, n := range ex.frameGhosts {
+			st.ghost[n] = ex.declare("g_"+n, ex.lib.Ghosts[n].Sort)
 		}
 	}
 	// results
@@ -799,4 +893,43 @@ func samePackage(a, b *ssa.Function) bool {
 		pb = o
 	}
 	return pa.Pkg != nil && pa.Pkg == pb.Pkg
+}
+
+func (ex *Exec) vfsMethodFor(cc *ssa.CallCommon) *ssa.Function {
+	return ex.dispatchMethod(cc.Value.Type(), cc.Method.Name())
+}
+
+// dispatchMethod resolves a method of a /repo interface to the method of the concrete
+// type declared for it by a "dispatch" line of the specs.
+func (ex *Exec) dispatchMethod(t types.Type, method string) *ssa.Function {
+	n, ok := t.(*types.Named)
+	if !ok || n.Obj().Pkg() == nil {
+		return nil
+	}
+	target, ok := ex.lib.Dispatch[n.Obj().Pkg().Path()+"."+n.Obj().Name()]
+	if !ok {
+		return nil
+	}
+	ptr := strings.HasPrefix(target, "*")
+	target = strings.TrimPrefix(target, "*")
+	i := strings.LastIndex(target, ".")
+	p := ex.prog.ImportedPackage(target[:i])
+	if p == nil {
+		return nil
+	}
+	tm, ok := p.Members[target[i+1:]].(*ssa.Type)
+	if !ok {
+		return nil
+	}
+	var recv types.Type = tm.Type()
+	if ptr {
+		recv = types.NewPointer(recv)
+	}
+	ms := ex.prog.MethodSets.MethodSet(recv)
+	for k := 0; k < ms.Len(); k++ {
+		if ms.At(k).Obj().Name() == method {
+			return ex.prog.MethodValue(ms.At(k))
+		}
+	}
+	return nil
 }
